@@ -549,7 +549,9 @@ func (e *Engine) checkEvents(s *Sys, class string) *Violation {
 		}
 		if g.Types&evRemoved != 0 {
 			if !g.Locked {
-				return e.v(s, class, "removal event %s delivered with the world unlocked", fmtEv(&g.MEv))
+				v := e.v(s, class, "removal event %s delivered with the world unlocked", fmtEv(&g.MEv))
+				v.Also = append(v.Also, "lock-not-enforced") // C09: the window in which removal events are delivered is locked
+				return v
 			}
 			if !g.AliveAtDelivery || !g.MaskOK || g.MaskAtDelivery != g.Removed {
 				return e.v(s, class, "removal event %s: entity not inspectable at delivery (alive=%v mask=%v)", fmtEv(&g.MEv), g.AliveAtDelivery, listOf(g.MaskAtDelivery))
